@@ -205,6 +205,7 @@ func checkC09(rc *RunCtx) *Report {
 			out.Numbers["states"] += int64(x.States)
 			out.Numbers["transitions"] += int64(x.Transitions)
 			out.Numbers["split_steps"] += int64(x.Splits)
+			out.Numbers["map_order_deviations"] += int64(x.MapDeviations)
 			out.Numbers["idle_states"] += int64(x.IdleStates)
 			out.Numbers["fixed_point_probes"] += int64(probes)
 			out.Numbers["conflict_steps"] += int64(x.conflicts)
